@@ -92,6 +92,8 @@ class Exec:
                 self.closures.setdefault(m.group(1), f)
         self.npaths = 0
         self.panics = []
+        self.explicit_new = False      # model HashMap::new() results explicitly (C06) instead of abstractly (C09)
+        self.models = {}               # callee regex -> python function(exec, args, state) -> value  (stated in the evidence when used)
 
     # ------------------------------------------------------------------------------------------------- symbolic heap
     def obj(self, path, ty=None):
@@ -443,11 +445,17 @@ class Exec:
         if re.search(r' as Deref>::deref$| as DerefMut>::deref_mut$', n):
             return [(st, a[0])]
         if re.search(r'<impl \[.*\]>::iter(_mut)?$| as IntoIterator>::into_iter$', n):
+            if isinstance(a[0], tuple) and a[0] and a[0][0] in ('iter', 'miter', 'hiter'):
+                return [(st, a[0])]
+            if isinstance(a[0], Obj) and getattr(a[0], 'ty', '') in ('HashMap',) and self.coll(a[0], st) is not None:
+                st.niter += 1
+                st.iters[st.niter] = tuple(range(len(self.coll(a[0], st))))
+                return [(st, ('miter', st.niter, a[0]))]
             st.niter += 1
             it = ('iter', st.niter, a[0])
             st.iters[st.niter] = 0
             return [(st, it)]
-        if re.search(r' as Iterator>::next$', n):
+        if re.search(r' as Iterator>::next$', n) and isinstance(a[0], tuple) and a[0][0] == 'iter':
             it = a[0]
             outs = []
             for (s2, els) in self.elems(it[2], st):
@@ -459,7 +467,7 @@ class Exec:
                     outs.append((s2, ('enum', 'Option', 'None', [])))
             return outs
         m = re.search(r' as Iterator>::(try_for_each|for_each)::<', n)
-        if m:
+        if m and isinstance(a[0], tuple) and a[0][0] == 'iter':
             it, clo = a[0], a[1]
             outs = []
             for (s2, els) in self.elems(it[2], st):
@@ -511,13 +519,15 @@ class Exec:
             for p, q in ((x, y), (y, x)):
                 if isinstance(q, tuple) and q[0] == 'variant':
                     return [(st, self.disc(p, st) == self.disc(q, st))]
-            raise Unsupported('PartialEq::eq on %r, %r' % (x, y))
         if re.search(r'Vec::<.*>::new$', n):
             st.ncall += 1
             return [(st, self.obj('vec#%d' % st.ncall, 'Vec'))]
         if re.search(r'Vec::<.*>::push$', n):
             st.events.append(('push', a[0].path if isinstance(a[0], Obj) else str(a[0]), a[1]))
             return [(st, ('unit',))]
+        for pat, fnm in self.models.items():
+            if re.search(pat, n):
+                return [(st, fnm(self, a, st))]
         for pat in self.opaque:
             if re.search(pat, n):
                 st.events.append(('opaque', n.split('::')[-1], a))
@@ -527,6 +537,16 @@ class Exec:
             return r
         # crate function: inline
         cands = [g for g in self.prog.fns if self.same_fn(g.name, n)]
+        if not cands:
+            # `Type::method` against `<impl at file:line>::method`: match by method name and the type named in the first parameter / return type
+            mm = re.match(r'^(?:[\w:]*::)?(\w+)::(\w+)$', re.sub(r'::<[^(]*>$', '', n))
+            if mm:
+                ty, meth = mm.group(1), mm.group(2)
+                c2 = [g for g in self.prog.fns if re.search(r'<impl at [^>]*>::%s$' % re.escape(meth), g.name)]
+                c3 = [g for g in c2 if g.params and re.search(r'\b%s\b' % re.escape(ty), g.params[0][1])]
+                if len(c3) != 1:
+                    c3 = [g for g in c2 if re.search(r'\b%s\b' % re.escape(ty), g.ret) or any(re.search(r'\b%s\b' % re.escape(ty), pt) for _pn, pt in g.params)]
+                cands = c3
         if len(cands) == 1:
             return [(s2, r) for (s2, r) in self.run_fn(cands[0], a, st)]
         raise Unsupported('call to %s (%d candidates)' % (n, len(cands)))
@@ -538,6 +558,9 @@ class Exec:
         if isinstance(v, tuple) and v[0] == 'fmt':
             return mir.fmt_to_z3(('fmt', v[1], [self.as_str(x) if not (isinstance(x, tuple) and x[0] == 'fmt') else x for x in v[2]]))
         raise Unsupported('not a string: %r' % (v,))
+
+    def as_key(self, v):
+        return v if (z3.is_expr(v) and v.sort() != z3.StringSort()) else self.as_str(v)
 
     def fork_bool(self, cond, st):
         outs = []
@@ -552,9 +575,14 @@ class Exec:
             s2 = st.copy(); s2.pc.append(z3.Not(c)); outs.append((s2, z3.BoolVal(False)))
         return outs
 
-    def coll(self, v):
-        """explicit model of a collection object: list of elements (sets) or (key, value) pairs (maps); None = abstract"""
-        return self.memo.get(('coll', v.path)) if isinstance(v, Obj) else None
+    def coll(self, v, st=None):
+        """explicit model of a collection object: list of elements (sets) or (key, value) pairs (maps); None = abstract.
+        Collections created by the code under test (HashMap::new) live in the path state, those supplied by a harness in memo."""
+        if not isinstance(v, Obj):
+            return None
+        if st is not None and ('coll', v.path) in st.heap:
+            return st.heap[('coll', v.path)]
+        return self.memo.get(('coll', v.path))
 
     def call_std(self, fn, n, a, dest, st):
         if re.search(r'<String as From<&str>>::from$|<String as From<String>>::from$|<&str as Into<String>>::into$|<str as ToString>::to_string$|<(String|str|&str) as (Clone|ToOwned)>::(clone|to_owned)$|<String as Deref>::deref$|String::as_str$|must_use::<String>$|<.* as Clone>::clone$|<.* as ToOwned>::to_owned$', n):
@@ -574,6 +602,30 @@ class Exec:
             if not (isinstance(a[1], tuple) and a[1][0] == 'char'):
                 raise Unsupported('contains with non-literal char')
             return self.fork_bool(z3.Contains(self.as_str(a[0]), z3.StringVal(a[1][1])), st)
+        if re.search(r'str::<impl str>::rsplit_once::<char>$|str>::rsplit_once::<char>$|str::<impl str>::split_once::<char>$', n):
+            if not (isinstance(a[1], tuple) and a[1][0] == 'char'):
+                raise Unsupported('split with non-literal char')
+            sv, ch = self.as_str(a[0]), z3.StringVal(a[1][1])
+            st.ncall += 1
+            pre, suf = z3.String('split%d_a' % st.ncall), z3.String('split%d_b' % st.ncall)
+            outs = []
+            if self.feasible(st.pc + [z3.Not(z3.Contains(sv, ch))]):
+                s1 = st.copy(); s1.pc.append(z3.Not(z3.Contains(sv, ch)))
+                outs.append((s1, ('enum', 'Option', 'None', [])))
+            side = z3.Not(z3.Contains(suf, ch)) if 'rsplit' in n else z3.Not(z3.Contains(pre, ch))
+            c = [sv == z3.Concat(pre, ch, suf), side]
+            if self.feasible(st.pc + c):
+                s2 = st.copy(); s2.pc += c
+                outs.append((s2, ('enum', 'Option', 'Some', [('tuple', [pre, suf])])))
+            return outs
+        m = re.search(r'Option::<.*>::map_or::<', n)
+        if m:
+            v = a[0]
+            if not (isinstance(v, tuple) and v[0] == 'enum' and v[1] == 'Option'):
+                raise Unsupported('map_or on %r' % (v,))
+            if v[2] == 'None':
+                return [(st, a[1])]
+            return self.invoke(a[2], [v[3][0]], st)
         if n.endswith('String::is_empty'):
             return self.fork_bool(z3.Length(self.as_str(a[0])) == 0, st)
         if re.search(r'Argument::<.*>::new_display::<.*>$', n):
@@ -613,7 +665,7 @@ class Exec:
         # ---- hash sets / maps
         m = re.search(r'HashSet::<.*>::contains::<.*>$', n)
         if m:
-            els = self.coll(a[0])
+            els = self.coll(a[0], st)
             if els is None:
                 raise Unsupported('contains on an unmodelled set')
             key = self.as_str(a[1])
@@ -626,9 +678,25 @@ class Exec:
         if m:
             it, clo = a[0], a[1]
             outs = []
+            if it[0] == 'miter':
+                pairs = self.coll(it[2], st)
+                none_states = [st.copy()]
+                for (k, v) in pairs:
+                    e = ('tuple', [k, v])
+                    for (s2, r) in self.invoke(clo, [e], st.copy()):
+                        if z3.is_true(z3.simplify(r)):
+                            outs.append((s2, ('enum', 'Option', 'Some', [e])))
+                    nxt = []
+                    for ns in none_states:
+                        for (s2, r) in self.invoke(clo, [e], ns):
+                            if z3.is_false(z3.simplify(r)):
+                                nxt.append(s2)
+                    none_states = nxt
+                outs += [(ns, ('enum', 'Option', 'None', [])) for ns in none_states]
+                return outs
             if it[0] == 'hiter':
                 # hash order is arbitrary: ANY element satisfying the predicate may be the one returned
-                els = self.coll(it[2])
+                els = self.coll(it[2], st)
                 if els is None:
                     raise Unsupported('find on an unmodelled set')
                 none_states = [st.copy()]
@@ -663,9 +731,9 @@ class Exec:
             return outs
         m = re.search(r'HashMap::<.*>::(get|contains_key)::<.*>$', n)
         if m:
-            pairs = self.coll(a[0])
+            pairs = self.coll(a[0], st)
             if pairs is not None:
-                key = self.as_str(a[1])
+                key = self.as_key(a[1])
                 outs = []
                 neg = []
                 for (k, v) in pairs:
@@ -678,10 +746,73 @@ class Exec:
                     outs.append((s2, ('enum', 'Option', 'None', []) if m.group(1) == 'get' else z3.BoolVal(False)))
                 return outs
             return self.abstract_lookup(a[0], a[1], st, m.group(1))
+        if re.search(r'HashMap::<.*>::new$|HashSet::<.*>::new$', n) and self.explicit_new:
+            st.ncall += 1
+            mobj = self.obj('map#%d' % st.ncall, 'HashMap')
+            st.heap[('coll', mobj.path)] = []
+            return [(st, mobj)]
         if re.search(r'HashMap::<.*>::insert$', n):
-            st.events.append(('insert', a[0].path, a[1], a[2]))
-            st.facts[('nonempty', a[0].path)] = True
-            return [(st, ('opaque', 'old'))]
+            pairs = self.coll(a[0], st)
+            if pairs is not None and ('coll', a[0].path) in st.heap:
+                key = self.as_key(a[1])
+                outs, neg = [], []
+                for j, (k, v) in enumerate(pairs):
+                    if self.feasible(st.pc + neg + [key == k]):
+                        s2 = st.copy(); s2.pc += neg + [key == k]
+                        s2.heap[('coll', a[0].path)] = pairs[:j] + [(k, a[2])] + pairs[j + 1:]
+                        outs.append((s2, ('enum', 'Option', 'Some', [v])))
+                    neg.append(key != k)
+                if self.feasible(st.pc + neg):
+                    s2 = st.copy(); s2.pc += neg
+                    s2.heap[('coll', a[0].path)] = pairs + [(key, a[2])]
+                    outs.append((s2, ('enum', 'Option', 'None', [])))
+                return outs
+            # abstract map: the previous value under this key is unknown -> None or Some(earlier value), like a look-up
+            outs = []
+            kd = str(a[1]) if z3.is_expr(a[1]) else repr(a[1])
+            for (s2, r) in self.abstract_lookup(a[0], a[1], st, 'get'):
+                s2.events.append(('insert', a[0].path, a[1], a[2]))
+                s2.facts[('nonempty', a[0].path)] = True
+                s2.facts[('lookup', a[0].path, kd)] = ('hit', a[2])
+                outs.append((s2, r))
+            return outs
+        if re.search(r'HashSet::<.*>::insert$', n):
+            st.events.append(('set_insert', a[0].path if isinstance(a[0], Obj) else str(a[0]), a[1]))
+            return [(st, z3.BoolVal(True))]
+        if re.search(r'HashMap::<.*>::iter$|<(&)?(std::collections::)?HashMap<.*> as IntoIterator>::into_iter$', n):
+            pairs = self.coll(a[0], st)
+            if pairs is None:
+                raise Unsupported('iteration over an unmodelled map')
+            st.niter += 1
+            st.iters[st.niter] = tuple(range(len(pairs)))
+            return [(st, ('miter', st.niter, a[0]))]
+        if re.search(r'hash_map::Iter<.*> as IntoIterator>::into_iter$', n):
+            return [(st, a[0])]
+        if re.search(r'hash_map::(Iter|IntoIter)<.*> as Iterator>::next$', n):
+            it = a[0]
+            pairs = self.coll(it[2], st)
+            rem = st.iters[it[1]]
+            outs = []
+            if not rem:
+                return [(st, ('enum', 'Option', 'None', []))]
+            for j in rem:              # hash order is arbitrary: every remaining entry may come next
+                s2 = st.copy()
+                s2.iters[it[1]] = tuple(x for x in rem if x != j)
+                outs.append((s2, ('enum', 'Option', 'Some', [('tuple', [pairs[j][0], pairs[j][1]])])))
+            return outs
+        m = re.search(r' as Iterator>::fold::<', n)
+        if m:
+            it, acc, clo = a[0], a[1], a[2]
+            outs = []
+            for (s2, els) in self.elems(it[2], st):
+                states = [(s2, acc)]
+                for k in range(s2.iters[it[1]], len(els)):
+                    nxt = []
+                    for (s3, ac) in states:
+                        nxt += self.invoke(clo, [ac, els[k]], s3)
+                    states = nxt
+                outs += states
+            return outs
         if re.search(r'HashMap::<.*>::is_empty$', n):
             if ('nonempty', a[0].path) in st.facts:
                 return [(st, z3.BoolVal(not st.facts[('nonempty', a[0].path)]))]
@@ -689,6 +820,19 @@ class Exec:
             s1.facts[('nonempty', a[0].path)] = False
             s2.facts[('nonempty', a[0].path)] = True
             return [(s1, z3.BoolVal(True)), (s2, z3.BoolVal(False))]
+        if re.search(r'HashMap::<.*>::entry$', n) and self.coll(a[0], st) is not None and ('coll', a[0].path) in st.heap:
+            pairs = self.coll(a[0], st)
+            key = self.as_key(a[1])
+            outs, neg = [], []
+            for (k, v) in pairs:
+                if self.feasible(st.pc + neg + [key == k]):
+                    s2 = st.copy(); s2.pc += neg + [key == k]
+                    outs.append((s2, ('enum', 'Entry', 'Occupied', [('occupied', a[0].path, key, v)])))
+                neg.append(key != k)
+            if self.feasible(st.pc + neg):
+                s2 = st.copy(); s2.pc += neg
+                outs.append((s2, ('enum', 'Entry', 'Vacant', [('vacant', a[0].path, key)])))
+            return outs
         if re.search(r'HashMap::<.*>::entry$', n):
             outs = []
             for (s2, r) in self.abstract_lookup(a[0], a[1], st, 'get'):
@@ -697,8 +841,19 @@ class Exec:
                 else:
                     outs.append((s2, ('enum', 'Entry', 'Vacant', [('vacant', a[0].path, a[1])])))
             return outs
-        if re.search(r'OccupiedEntry::<.*>::get$', n):
+        if re.search(r'OccupiedEntry::<.*>::(get|get_mut|into_mut)$', n):
             return [(st, a[0][3])]
+        if re.search(r'OccupiedEntry::<.*>::insert$', n):
+            occ = a[0]
+            key = ('coll', occ[1])
+            if key in st.heap:
+                st.heap[key] = [(k, a[1]) if (v is occ[3]) else (k, v) for (k, v) in st.heap[key]]
+            else:
+                st.events.append(('insert', occ[1], occ[2], a[1]))
+            return [(st, occ[3])]
+        if re.search(r'VacantEntry::<.*>::insert$', n) and ('coll', a[0][1]) in st.heap:
+            st.heap[('coll', a[0][1])] = st.heap[('coll', a[0][1])] + [(a[0][2], a[1])]
+            return [(st, a[1])]
         if re.search(r'VacantEntry::<.*>::insert$', n):
             st.events.append(('insert', a[0][1], a[0][2], a[1]))
             st.facts[('nonempty', a[0][1])] = True
@@ -718,14 +873,22 @@ class Exec:
         oracle can relate it to the abstract history; emptiness facts are kept consistent."""
         outs = []
         kdesc = str(key) if z3.is_expr(key) else repr(key)
+        known = st.facts.get(('lookup', m.path, kdesc))
+        if known is not None:
+            # the same key was already looked up on this path: stay consistent with that answer
+            if known[0] == 'hit':
+                return [(st, ('enum', 'Option', 'Some', [known[1]]) if kind == 'get' else z3.BoolVal(True))]
+            return [(st, ('enum', 'Option', 'None', []) if kind == 'get' else z3.BoolVal(False))]
         if st.facts.get(('nonempty', m.path)) is not False:
             s1 = st.copy()
             s1.ncall += 1
             prev = self.obj('%s#hit%d' % (m.path, s1.ncall), 'Method')
             s1.facts[('nonempty', m.path)] = True
+            s1.facts[('lookup', m.path, kdesc)] = ('hit', prev)
             s1.events.append(('lookup', m.path, kdesc, 'hit', prev.path))
             outs.append((s1, ('enum', 'Option', 'Some', [prev]) if kind == 'get' else z3.BoolVal(True)))
         s2 = st.copy()
+        s2.facts[('lookup', m.path, kdesc)] = ('miss',)
         s2.events.append(('lookup', m.path, kdesc, 'miss', None))
         outs.append((s2, ('enum', 'Option', 'None', []) if kind == 'get' else z3.BoolVal(False)))
         return outs
